@@ -23,10 +23,10 @@ import (
 
 type airStats struct {
 	Ops, Scenarios, Mutations, Fatal, ErrorResults, OkResults, Panics int
-	Clones, CloneOps, Restarts, RestartPoints                        int
-	MutationHist                                                     map[string]int
-	OutcomeHist                                                      map[string]int
-	Monitors, Notes, Samples                                         []string
+	Clones, CloneOps, Restarts, RestartPoints, SeedEntries            int
+	MutationHist                                                      map[string]int
+	OutcomeHist                                                       map[string]int
+	Monitors, Notes, Samples                                          []string
 }
 
 type airRun struct {
@@ -469,7 +469,44 @@ func (a *airRun) faultScenario(outDir string, n, t int) {
 				ref = append(ref, resultDigest(tryOperation(refM, op, true)))
 			}
 			refKey, _ := keyringOf(refM, round)
+			refPub, _ := refM.GetPubKey().MarshalBinary()
 			refM.VerifCloseDB()
+			// the operator's own way to the same machine: a first start (keys from a self-generated seed), then set_seed with the
+			// mnemonic (SetBaseSeed + GenerateKeys, as the CLI does) - and the same mnemonic typed in once more. Same mnemonic,
+			// same long-term key, and fed the same operations the same share
+			if opM, err := airgapped.NewMachine(filepath.Join(dir, "opflow", "db")); err == nil {
+				opM.SetEncryptionKey([]byte("pw"))
+				os.MkdirAll(filepath.Join(dir, "opflow", "results"), 0o755)
+				opM.SetResultFolder(filepath.Join(dir, "opflow", "results"))
+				stage := "the first start"
+				ok := opM.InitKeys() == nil
+				for k := 1; ok && k <= 2; k++ {
+					stage = fmt.Sprintf("set_seed #%d", k)
+					if err := opM.SetBaseSeed(mnemonic); err != nil {
+						ok = false
+						break
+					}
+					if err := opM.GenerateKeys(); err != nil {
+						ok = false
+						break
+					}
+					a.st.SeedEntries++
+					if pk, _ := opM.GetPubKey().MarshalBinary(); !bytes.Equal(pk, refPub) {
+						a.mon(fmt.Sprintf("C12 same_mnemonic_same_keys: after the operator entered the mnemonic (set_seed, time #%d in this process) the machine's long-term key is %x…, a machine created from that mnemonic has %x…", k, pk[:8], refPub[:8]))
+					}
+				}
+				if !ok {
+					a.note("operator flow stopped at " + stage)
+				} else {
+					for _, op := range victim.coldLog {
+						tryOperation(opM, op, true)
+					}
+					if got, _ := keyringOf(opM, round); got != refKey {
+						a.mon(fmt.Sprintf("C12 same_mnemonic_same_keys: a machine whose operator entered the mnemonic twice and fed the same operations holds %s, the reference %s", truncate(got, 90), truncate(refKey, 90)))
+					}
+				}
+				opM.VerifCloseDB()
+			}
 			if refKey != want {
 				a.mon(fmt.Sprintf("C12 same_mnemonic_same_keys: reference machine holds %s, the original %s", truncate(refKey, 90), truncate(want, 90)))
 			}
